@@ -84,8 +84,8 @@ def d3(cx: Cx, ob: Ob) -> None:
     s = cx.summary(fn, ob.id)
     me = ("param", fn.self_name)
     raises = s.raises()
-    if len({ctx.path.out[2] for _, ctx in raises}) < 2:
-        ob.violate(fn.qualname, fn.where, "add_record has fewer than two rejecting raises (several matches; one match without merge)", detail="missing-raise")
+    if not raises:
+        ob.violate(fn.qualname, fn.where, "add_record never rejects a record (several matches; one match without merge)", detail="missing-raise")
     for t, ctx in raises:
         line = ctx.path.out[2]
         ob.site(f"{where(fn, line)} {fn.qualname}", f"raise {show(t)[:50]}")
